@@ -15,6 +15,7 @@ PINS = [
  ("c04_path_iter_nodes", "p_iter_nodes_spec", "Path::iter_nodes / to_vec_nodes (a position-walking iterator) yields the source of the first edge followed by every edge's target"),
  ("c04_path_len", "p_len_counts_nodes", "Path::len is the number of nodes of a non-empty path"),
  ("c04_path_last_node", "p_last_node_is_end", "Path::last_node is the target of the last edge (what pfs search() returns)"),
+ ("c04_path_first_node", "p_first_node_is_start", "Path::first_node is the node the path starts at: the source of the first edge, the first element of iter_nodes (with c04_bfs_sound: the root)"),
 ]
 EXTRA = """
 Example c04_nonvacuous :
